@@ -430,6 +430,9 @@ def run(ctx) -> None:
     ctx.guard_as("R03.8", r15_5)
     from .c14 import r14_4_5
     ctx.guard_as("R03.8", r14_4_5)  # the key picked for signing without a kid is a member of the set as it is now
+    # "every payload octet string": the JSON extraction accepts every base64url payload member, the empty one included (C01's extraction rule)
+    from .c01 import r01_7
+    ctx.guard_as("R03.10", r01_7)
     ctx.guard(r03_7)
     ctx.guard(r03_6)
     ctx.guard(r03_1)
